@@ -5,6 +5,7 @@ import (
 	"go/ast"
 	"go/constant"
 	"log"
+	"regexp"
 	"strings"
 	"unicode/utf8"
 
@@ -129,7 +130,16 @@ func (c *regexpSimplifyChecker) simplify(pass int, pat string) string {
 	}
 
 	if c.score > 0 {
-		return c.out.String()
+		result := c.out.String()
+		// The last line of defence: never suggest a pattern that
+		// Go rejects in place of the one it accepts
+		// (e.g. a repetition nested into `{1000}` by the rewrite).
+		if _, err := regexp.Compile(pat); err == nil {
+			if _, err := regexp.Compile(result); err != nil {
+				return ""
+			}
+		}
+		return result
 	}
 	return ""
 }
